@@ -9,7 +9,7 @@ META = {
     "technique": "Coq proof (invariant by induction over arbitrary operation sequences, plan and commit phases as separate steps) "
                  "+ model/implementation differential on the real Coordinator driven in-process, state compared after every step",
     "design_ref": "DESIGN.md §7 C32, §12 Coord",
-    "level_text": "proof",
+    "level_text": "Coq theorem: the bookkeeping invariant holds after every history (plan and commit phases as separate steps, all outcomes, all HashMap orders) outside three recorded finding classes; no axioms. Model tied to coordinator.rs / api.rs by a differential run on the real Coordinator (direct calls and REST handlers) on every check",
     "level_note": "Theorems are about coq/theories/Coord/Model.v (hand-written model of coordinator.rs plan_*/commit_*, register/deregister/heartbeat, "
                   "health sweep, migrate_pipeline, handle_worker_failure, drain_worker, rebalance) tied to the code by the differential run; "
                   "HashMap iteration orders and HTTP outcomes are inputs of the model (observed from the implementation / scripted) and the theorems quantify over all of them. "
